@@ -1105,6 +1105,14 @@ class SerEval:
                     else:
                         self.emit({"k": "fill", "value": val, "count": self.resolve_markers(self.env.poly(k)), "line": s.lineno})
                     return
+            # [0x12, 0x34, ..]: literal octets, in wire order
+            if isinstance(arg, ast.List) and arg.elts and all(isinstance(x, ast.Constant) and isinstance(x.value, int)
+                                                              and 0 <= x.value <= 255 for x in arg.elts):
+                bs = [x.value for x in arg.elts]
+                self.emit({"k": "chunk", "n": len(bs), "order": "little" if len(bs) > 1 else None,
+                           "bits": [(bs[i // 8] >> (i % 8)) & 1 for i in range(8 * len(bs))],
+                           "line": s.lineno, "his": {}, "keys": [], "env": self.env})
+                return
             # payload or self.payload or []
             if isinstance(arg, ast.BoolOp):
                 self.emit({"k": "bytes", "src": "self.payload", "line": s.lineno})
